@@ -45,6 +45,11 @@ func TestRAC_C17(t *testing.T) {
 	seed := envInt("VERIF_SEED", 0)
 	rep := &racReport{Property: "C17", Seed: seed}
 	defer rep.write()
+	if devnull, err := os.OpenFile(os.DevNull, os.O_WRONLY, 0); err == nil {
+		saved := os.Stdout
+		os.Stdout = devnull
+		defer func() { os.Stdout = saved }()
+	}
 	r := rand.New(rand.NewSource(int64(seed) + 17000))
 	n := envInt("RAC_N", 1)
 	add := func(kind, script, input, want, got string) {
@@ -232,6 +237,73 @@ func TestRAC_C17(t *testing.T) {
 		}
 	}
 	rep.Programs += 2
+
+	// ---- a call gives the same answer however often, and on whichever evaluator, it is made
+	for _, src := range []string{
+		`return replace("a(b", "abc(", "x");`, `return match("abc", "ab(");`, `return replace(S, "b+", "-");`, `return match(S, "^a");`, `return S ~= /b/;`, `return [min(3, 2.5), max("10", "9"), between(2, 1, 3)];`,
+		`return sort(["b", "a", "C"], true);`, `return join(split("a,b,,c", ","), "|");`, `return [lower("ÀB"), upper("straße"), trim("  x ")];`, `return [int("42"), int("x"), float("1.5"), float("y"), string(3.0), type(1.0)];`,
+		`return [len("héllo"), len([1, 2]), len({"a": 1})];`, `return sprintf("%d-%s-%5.2f", 7, "s", 2.5);`, `return keys({"b": 1, "a": 2});`, `return reverse([3, 1, 2]);`,
+	} {
+		var first string
+		e := New(src)
+		if err := e.Prepare(); err != nil {
+			add("repeatable", src, "", "accepted", err.Error())
+			continue
+		}
+		for i := 0; i < 4; i++ {
+			x := e
+			if i == 3 {
+				x = New(src) // a freshly prepared evaluator, in a process that has seen the call before
+				x.Prepare()
+			}
+			rep.Runs++
+			got := "error"
+			if out, err := x.Execute(map[string]interface{}{"S": "abba"}); err == nil {
+				got = showObj(out)
+			}
+			if i == 0 {
+				first = got
+			} else if got != first {
+				add("repeatable", src, fmt.Sprintf("call %d (the fourth is on a fresh evaluator)", i+1), first, got)
+			}
+		}
+		rep.Programs++
+	}
+
+	// ---- many distinct patterns in one process: each still means itself, also when it comes round again
+	done := make(chan bool, 1)
+	go func() {
+		me := New(`return [match(Host, Pattern), match(Other, Pattern), Host ~= /^host-7$/];`)
+		if err := me.Prepare(); err != nil {
+			add("many-patterns", "match(Host, Pattern)", "", "accepted", err.Error())
+			done <- true
+			return
+		}
+		check := func(i int) {
+			rep.Runs++
+			got := "error"
+			if out, err := me.Execute(map[string]interface{}{"Host": fmt.Sprintf("host-%d", i), "Other": fmt.Sprintf("host-%d", i+1), "Pattern": fmt.Sprintf("^host-%d$", i)}); err == nil {
+				got = showObj(out)
+			}
+			want := fmt.Sprintf("ARRAY:[true, false, %v]", i == 7)
+			if got != want {
+				add("many-patterns", "return [match(Host, Pattern), match(Other, Pattern), Host ~= /^host-7$/];", fmt.Sprintf("pattern number %d of 1500 distinct ones (second round: after all 1500)", i), want, got)
+			}
+		}
+		for i := 0; i < 1500; i++ {
+			check(i)
+		}
+		for i := 0; i < 1500; i += 7 {
+			check(i)
+		}
+		done <- true
+	}()
+	select {
+	case <-done:
+	case <-time.After(60 * time.Second):
+		add("many-patterns", "return [match(Host, Pattern), ...];", "1500 distinct patterns", "every call returns", "no return within 60 s: a lock left held")
+	}
+	rep.Programs++
 	for _, v := range rep.Violations {
 		t.Logf("RAC-VIOLATION kind=%s script=%q input=%s expected %s got %s", v.Kind, v.Script, v.Input, v.Expected, v.Got)
 	}
